@@ -473,6 +473,50 @@ func (rpcapi *ClusterRPCAPI) PinsRaw(ctx context.Context, in struct{}, out *[]*a
 	defer opt.mu.Unlock()
 	op2, ok := opt.operations[op.Cid()]''', '''	opt.mu.Lock()
 	op2, ok := opt.operations[op.Cid()]'''),
+ # round-6 rules, second clause each
+ ('C14-hand-crdt-import-cleans-last', 'cmdutils/state.go',
+  '''	err := crdtsm.Clean()
+	if err != nil {
+		return err
+	}
+
+	store, err := crdtsm.GetStore()
+	if err != nil {
+		return err
+	}
+	defer store.Close()
+	st, err := crdtsm.GetOfflineState(store)
+	if err != nil {
+		return err
+	}
+''', '''	store, err := crdtsm.GetStore()
+	if err != nil {
+		return err
+	}
+	defer store.Close()
+	st, err := crdtsm.GetOfflineState(store)
+	if err != nil {
+		return err
+	}
+	err = crdtsm.Clean()
+	if err != nil {
+		return err
+	}
+'''),
+ ('C11-hand-status-local-undef-cid', 'api/rest/restapi.go',
+  '''				"StatusLocal",
+				pin.Cid,''', '''				"StatusLocal",
+				cid.Undef,'''),
+ ('C10-hand-apply-drops-repinning', 'cluster_config.go',
+  '	cfg.DisableRepinning = jcfg.DisableRepinning\n', ''),
+ ('C12-hand-stream-add-returns-nil', 'adder/adderutils/adderutils.go',
+  '''		w.Header().Set("X-Stream-Error", err.Error())
+	}
+	wg.Wait()
+	return root, err''', '''		w.Header().Set("X-Stream-Error", err.Error())
+	}
+	wg.Wait()
+	return root, nil'''),
 ]
 
 
